@@ -64,3 +64,33 @@ Theorem C06_first_line_only_file : forall fd ld nls d s e,
   d_range d = Some (s, e) -> line_index nls s = 0 -> suppressed fd ld nls d = file_has fd (d_code d).
 Proof. exact first_line_only_file. Qed.
 Print Assumptions C06_first_line_only_file.
+
+From V Require Import Pipeline.Tokens Pipeline.Reason.
+
+(* the codes of a directive are the distinct maximal runs of non-separator characters before the reason *)
+Theorem C06_codes_are_tokens : forall rest, codes_of_text rest = dedup (tokens (cut_reason 0 rest)).
+Proof. exact codes_of_text_tokens. Qed.
+Print Assumptions C06_codes_are_tokens.
+
+(* the way codes are separated does not matter: whatever non-empty mixtures of white space
+   (any Unicode White_Space) and commas separate them (and trail them), the codes are the same *)
+Theorem C06_codes_any_separators : forall items tail,
+  Forall good_item items -> Forall (fun it => dash_safe (snd it)) items -> all_sep tail ->
+  codes_of_text (render items ++ tail) = dedup (map snd items).
+Proof. exact codes_any_separators. Qed.
+Print Assumptions C06_codes_any_separators.
+
+(* an appended `-- reason` does not change which codes are meant *)
+Theorem C06_codes_with_reason : forall items ws r,
+  Forall good_item items -> Forall (fun it => dash_safe (snd it)) items ->
+  last_ok (render items) (ws ++ DASH :: DASH :: r) = true ->
+  all_ws ws -> no_nl r ->
+  codes_of_text (render items ++ ws ++ DASH :: DASH :: r) = dedup (map snd items).
+Proof. exact codes_with_reason. Qed.
+Print Assumptions C06_codes_with_reason.
+
+Theorem C06_reason_example :
+  codes_of_text [32;110;111;45;100;101;98;117;103;103;101;114;44;32;32;101;113;101;113;101;113;32;45;45;32;119;104;121]
+  = [[110;111;45;100;101;98;117;103;103;101;114]; [101;113;101;113;101;113]].
+Proof. exact reason_example. Qed.
+Print Assumptions C06_reason_example.
